@@ -38,6 +38,11 @@ REGEX_SAMPLES = {
     "FLAG_(?:[a-z]|%[0-9]{2}){18}": ["FLAG_" + "ab%12c" * 3 + "abcabc", "FLAG_" + "x" * 18, "FLAG_" + "%07" * 18 + "!"],
     "id=(?:ab|c){18};": ["id=" + "c" * 18 + ";", "id=" + "abc" * 9 + ";", "id=" + "ab" * 18 + ";x"],
     "x(?:aa|b){19}": ["x" + "b" * 19, "x" + "aab" * 9 + "b"],
+    # alternation whose branches share the minimum length but differ in the maximum, no literal prefix, constant suffix:
+    # the fixed-length window must not be taken (payloads with only the long form / only the short form / both)
+    "(?:[ab][0-9]{1,2}|cc)end": ["a12end", "b7end", "ccend", "xa12endccend"], "(?:cc|[ab][0-9]{1,2})end": ["a12end", "ccend", "b3end"],
+    "(?:[0-9]{2}|[ab]{2,3}|x.)z": ["abaz", "12z", "x-z", "aabz12z"], "(?:a?b|[0-9])oo": ["aboo", "boo", "7oo", "xaboo"],
+    "(?:[a-c]|[0-9]{1,3})x": ["123x", "ax", "12x", "9x"], "(?:.b?|aa)\\.": ["ab.", "a.", "aa.", "zb."],
     "a[a-c]?b": ["ab", "acb"], "ab?": ["a", "ab"], "fo*3": ["f3", "foo3"], "[fb]oo": ["boo", "foo"], "(?:fo|f)o3": ["foo3", "fo3"], "oo3|ar": ["oo3", "ar"],
 }
 BUDGET_REGEXES = [r for r in REGEX_SAMPLES if "){18}" in r or "){19}" in r]   # exhaust ConstantSuffix's budget: expensive to prepare
